@@ -675,7 +675,7 @@ fn gen(rng: &mut Rng, tier: Tier, emit: &mut dyn FnMut(Vec<Tok>)) {
         }
     }
     // 3. random histories
-    let ncases = if quick { 2200 } else { 120_000 };
+    let ncases = if quick { 2200 } else { 40_000 };
     for i in 0..ncases {
         let kind = match i % 6 {
             0..=2 => 0,
